@@ -25,7 +25,7 @@ CONSTANTS
   Depth = 7
   Export = TRUE
   SetWeight = 5
-  RareWeight = 60
+  RareWeight = 100
   Setter = "rebuilds"
 INVARIANT ObjectInv
 CONSTRAINT Bound
